@@ -1,6 +1,82 @@
-"""B-cfi_lookup: address lookup in .eh_frame / .debug_frame / .eh_frame_hdr  (DESIGN.md 6 C05 "lookups"; C01).
+"""B-cfi_lookup: address lookup in .eh_frame / .debug_frame and through the .eh_frame_hdr search table  (DESIGN.md 6 C05
+"lookups"; C01).  Closes the two gaps batch cfi_entries lists under NOT DECIDED: (G1) the RESULT of the binary search
+`EhHdrTable::lookup`, (G2) "group 4": the lookups of `UnwindSection` and `EhHdrTable`.
 
-WORK IN PROGRESS HEADER - replaced at the end.
+Built on top of cfi_entries: `cfi_entries.populate()` is called unchanged (every function of that batch is verified again here,
+same contracts), then
+  * its `impl EhHdrTable` item is REPLACED by a fresh extraction of the same source item that keeps all five methods
+    (iter / pointer_to_offset: contracts copied from cfi_entries.group3; lookup: the contract below),
+  * `CfiEntriesIter::next` gets ONE more proved postcondition (the partial FDE handed out carries the section's address size),
+  * the six default methods of `trait UnwindSection` that cfi_entries drops are extracted again (R-TRAITSPLIT, below).
+Spec functions: vx/specs/cfi_lookup.rs (written from LSB Core generic 10.6.2: "binary search table ... sorted by initial
+location, entries: initial location, address" in `table_enc`), plus `sec_from` / `fde_at_offset` in this file.
+
+FUNCTIONS UNDER CONTRACT (real bodies verified; owners C01+C05 for safety/termination/callee preconditions)
+  EhHdrTable::lookup          ghost decoding of the table: tbl_key(i) / tbl_fde(i) = the two `table_enc` pointers of row i decoded
+                              exactly as parse_encoded_pointer specifies (base per application bits incl. pcrel-to-the-field,
+                              zero/sign extension, wrap at the address size), row i at byte offset i * 2 * field_size of hdr.table.
+                              [C05:lookup-result]  tbl_sorted (non-decreasing keys) ==> Ok(p) ==> p is the FDE pointer of a row j
+                                                   with tbl_pick(j): key(j) <= address and (key(j+1) > address or key(j) == address
+                                                   [the `Equal` hit stops at ANY row whose key equals the address]); j = 0 if
+                                                   key(0) > address or the table is empty.  For strictly increasing keys j is the
+                                                   LAST row with key <= address == the linear scan (lemma_pick_is_scan, proved).
+                                                   Stated as an implication, not a `requires`: the table is untrusted input and
+                                                   fde_for_address must be callable on it.
+                              [C05:lookup-in-table] Ok(p) ==> p is the FDE pointer (field 1, with the indirect flag of table_enc) of
+                                                   some row < fde_count (row 0 of whatever follows the header if fde_count == 0)
+                              [C05:lookup-total]   searchable field size, all rows present (table < 4 GiB), base defined, direct
+                                                   pointers ==> Ok   (rejects a search that runs out of rows it discarded)
+                              [C05:lookup-encoding] (from cfi_entries) non-fixed-size encodings are rejected
+                              Loop invariant: ghost `lo` = row the reader stands at; window = rows [lo, lo+len);
+                              lo > 0 ==> key(lo) <= address; every row >= lo+len has key > address; reader holds >= len rows.
+  EhHdrTable::fde_for_address [C05:lookup-contains] Ok(f) ==> f.covers(address); [C05:lookup-entry] f is the FDE encoded at its
+                              offset of `frame`; [C05:hdr-lookup-row] sorted ==> that offset is tbl_fde(j) - eh_frame_ptr for the
+                              picked row j (lookup + pointer_to_offset + fde_from_offset compose)
+  EhHdrTable::unwind_info_for_address, UnwindSection::unwind_info_for_address
+                              safety + [C05:unwind-fde-covers]: the FDE handed to FrameDescriptionEntry::unwind_info_for_address
+                              covers the address (obligation placed as `requires` of the stub)
+  UnwindSection::entries      [C05:entries-start] iterator over the whole section, same bases/address size
+  UnwindSection::cie_from_offset / partial_fde_from_offset / fde_from_offset
+                              [C05:cie-from-offset] [C05:pfde-from-offset] [C05:fde-from-offset]: the entry decoded at exactly
+                              that section offset (cie_at / PartialFDE::at / fde_at_offset), [C05:fde-cie-binding] CIE = what
+                              get_cie answered for the offset the CIE_pointer designates, [C05:from-offset-oob] offset past the end
+  UnwindSection::fde_for_address
+                              [C05:lookup-contains] [C05:lookup-entry] [C05:fde-cie-binding];
+                              [C05:lookup-exhaustive] an assertion in front of EVERY `Err(NoUnwindInfoForAddress)` of the method:
+                              the entries iterator is exhausted there (a post-state clause cannot say it: `entries` is a local);
+                              termination by the iterator's remaining input.
+
+LOGGED REWRITES
+  R-TRAITSPLIT  `pub trait UnwindSection<R>: Clone + Debug + _UnwindSectionPrivate<R> { type Offset; <6 default methods> }` is
+                emitted as the (method-less) trait of cfi_entries plus `pub trait UnwindSectionLookup<R>: UnwindSection<R>` holding
+                the six methods with their text unchanged (`self`, `Self::Offset` keep their meaning through the supertrait), and
+                `impl UnwindSectionLookup<R> for DebugFrame<R> / EhFrame<R>` (gimli: the two impls of UnwindSection).  Inside
+                UnwindSection Verus rejects the bodies (they call functions bounded by `Section: UnwindSection<R>`: definition
+                cycle).  Method-call syntax at the call sites (`frame.fde_from_offset(..)`) is untouched; no R-SELF-FREE needed.
+  R-CLONE       `self.clone()` -> section_clone(self), `self.section().clone()` / `reader.clone()` -> reader_clone(..)
+  R-ETA         as cfi_entries
+  `#[verifier::loop_isolation(false)]` on UnwindSection::fde_for_address (attribute insertion): the loop re-borrows
+                `&mut get_cie`; relating the closure variable inside the loop to the parameter the postcondition names needs the
+                facts from before the loop (ghost g0, invariant get_cie == g0).  The re-borrow itself is fine in this Verus build.
+
+ASSUMED (TRUSTED ledger = cfi_entries' + the three below)
+  UnwindContext, UnwindTableRow   MODEL structs (external_body, no fields) and the marker trait UnwindContextStorage: stand-ins for
+                  the types batch cfi_unwind owns; the lookups only pass `&mut UnwindContext` through.
+  unwind_info_for_address   = FrameDescriptionEntry::unwind_info_for_address, R-EXTBODY: signature from the source, body (UnwindTable
+                  rows) not verified here, NO postcondition assumed; its `requires` is proved at both call sites.
+  API-misuse preconditions (explicit `requires`): configured address size of the section in {1,2,4,8}; `get_cie` callable for every
+  offset on a section value with the same data and address size as `self` (the iterator hands out a clone of the section).
+
+NOT DECIDED here
+  * "succeeds EXACTLY when some FDE covers the address" / agreement of the three lookup paths: `Err(NoUnwindInfoForAddress)` is
+    tied to an exhausted iterator, not to "no FDE of the section covers" (needs the iterator-as-sequence specification of the whole
+    section, DESIGN C05 ND); that the search table lists every FDE of .eh_frame and is sorted is the producer's obligation
+    (tbl_sorted is a hypothesis of [C05:lookup-result] / [C05:hdr-lookup-row]).
+  * error VALUES propagated from the iterator / get_cie / the reader layer (unconstrained by the contract layer).
+  * what unwind_info_for_address returns (row of the FDE's table containing the address): batch cfi_unwind / C06.
+  * with duplicate keys equal to the address the row returned is one of the duplicates, not necessarily the last (stated, see
+    tbl_pick); readelf agreement.
+Kani: group K-EHHDR (kani/src/ehhdr.rs) checks lookup == linear scan through the public API on EndianSlice for 2..5 rows.
 """
 from lib import *
 from batches import core
@@ -51,6 +127,14 @@ def eh_hdr_table(ctx, sk):
         raise Lost('cfi_entries no longer emits exactly one `EhHdrTable` item')
     chunks.remove(old[0])
     ctx.items.remove(old[0][0])
+    # ... and its entries in the rewrite log (the fresh extraction below logs its own; nothing of EhHdrTable is dropped here)
+    where = old[0][0]._where('')
+    for rec in [c for c in ctx.custom if c[1] == where]:
+        ctx.custom.remove(rec)
+        ctx.rules[rec[0]] -= 1
+    for rec in [d for d in ctx.dropped if d.startswith(where)]:
+        ctx.dropped.remove(rec)
+        ctx.rules['R-DROP'] -= 1
     sk.add(M, SPEC_TEXT, label='ghost(lookup)')
 
     ht = cfi.item(r"^impl<'a, R: Reader \+ 'a> EhHdrTable<'a, R> \{", label='EhHdrTable')
@@ -122,8 +206,7 @@ pub open spec fn fde_at_offset<R: Reader<Offset = usize>>(f: FrameDescriptionEnt
     && !id_is_cie(is_eh, px_is64(b), px_id(b, is_eh)) && fde_body(f, px_rest(b, is_eh), sec, bases)
 }
 /// R-TRAITSPLIT: both unwind sections have the lookup methods (gimli: they are default methods of UnwindSection itself, which
-/// has exactly these two implementations).  (A blanket `impl<S: UnwindSection<R>> .. for S` is equivalent but makes the trait
-/// reachable from every type, which destabilises unrelated bit-vector proofs of the core layer.)
+/// has exactly these two implementations)
 impl<R: Reader<Offset = usize>> UnwindSectionLookup<R> for DebugFrame<R> {}
 impl<R: Reader<Offset = usize>> UnwindSectionLookup<R> for EhFrame<R> {}
 """
@@ -142,11 +225,15 @@ def cie_bound(f, sec, off):
 def section_lookups(ctx, sk):
     """UnwindSection::{entries, cie_from_offset, partial_fde_from_offset, fde_from_offset, fde_for_address}.
     R-TRAITSPLIT: the default methods move, text unchanged, into a sub-trait `UnwindSectionLookup<R>: UnwindSection<R>` that is
-    implemented for every UnwindSection (blanket impl).  Inside UnwindSection itself Verus rejects them: their bodies call
-    functions bounded by `Section: UnwindSection<R>` (definition cycle)."""
+    implemented for DebugFrame and EhFrame.  Inside UnwindSection itself Verus rejects them: their bodies call functions bounded
+    by `Section: UnwindSection<R>` (definition cycle)."""
     cfi = Source('read/cfi.rs', ctx)
     M = 'read::cfi'
     us = cfi.item(r'^pub trait UnwindSection<', label='UnwindSection(lookups)')
+    # cfi_entries emitted the trait without its six default methods and logged them as dropped; here they are verified
+    for rec in [d for d in ctx.dropped if d.startswith('read/cfi.rs:UnwindSection::')]:
+        ctx.dropped.remove(rec)
+        ctx.rules['R-DROP'] -= 1
     us.custom('R-TRAITSPLIT', 'pub trait UnwindSection<R: Reader>: Clone + Debug + _UnwindSectionPrivate<R> {',
               'pub trait UnwindSectionLookup<R: Reader>: UnwindSection<R> {')
     us.custom('R-TRAITSPLIT', 'type Offset: UnwindOffset<R::Offset>;', '')
@@ -241,8 +328,10 @@ def pin_core_order(ctx, sk):
     """Work-around for an ordering hazard of the core layer (reported; the fix belongs in core.py): the obligations of
     `impl ReaderAddress for u64` are stated by the trait in terms of `val()`, but the bodies never mention u64's own `val`, so
     Verus' call graph does not order `<u64 as ReaderAddress>::val` before them; whether its defining axiom is already in the
-    solver context when `ones_sized` / `wrapping_add_sized` are checked then depends on unrelated items of the crate (with the
-    lookups added it is not: both fail deterministically, reseeding does not help).  A ghost mention creates the edge."""
+    solver context when `ones_sized` / `wrapping_add_sized` are checked then depends on unrelated items of the crate.  Observed:
+    adding the default method `cie_from_offset` to the crate makes both fail `[C08:ones]` / `[C08:wrapping-add]` deterministically
+    (same axioms, different order; reseeding does not help), and a ghost mention of `(0u64).val()` in `ones_sized` - an edge in the
+    call graph, nothing else - makes both pass again."""
     its = [c[0] for c in sk.mods['read::reader']['chunks'] if isinstance(c[0], Item) and c[0].label == 'ReaderAddress for u64']
     if len(its) != 1:
         raise Lost('core no longer emits exactly one `ReaderAddress for u64` item')
